@@ -134,6 +134,13 @@ _BY_TAG = {}
 def keys_by_tag():
     """{table tag: [gen-2 keys of eligible fonts that contain it]} — lets a generator pick a table kind
     first and a font second, so that rare table kinds are not drowned by the common ones."""
+    if not _BY_TAG and os.environ.get("VERIF_TAGINDEX") and os.path.exists(os.environ["VERIF_TAGINDEX"]):
+        # written by the parent check process (same tree, same code) so that the fresh interpreters it
+        # starts do not recompile the whole corpus just to make the same choice
+        import json
+
+        with open(os.environ["VERIF_TAGINDEX"]) as f:
+            _BY_TAG.update(json.load(f))
     if not _BY_TAG:
         for k in all_gen2_keys():
             g = gen2(k)
@@ -145,3 +152,27 @@ def keys_by_tag():
             except Exception:
                 pass
     return _BY_TAG
+
+
+def publish_tag_index():
+    """Writes keys_by_tag() to a scratch file and exports its path to child interpreters."""
+    import atexit
+    import json
+    import tempfile
+
+    bt = keys_by_tag()
+    fd, path = tempfile.mkstemp(prefix="verif-tagindex-", suffix=".json")
+    with os.fdopen(fd, "w") as f:
+        json.dump(bt, f)
+    os.environ["VERIF_TAGINDEX"] = path
+    pid = os.getpid()
+
+    def _rm():
+        if os.getpid() == pid:
+            try:
+                os.remove(path)
+            except OSError:
+                pass
+
+    atexit.register(_rm)
+    return path
